@@ -225,9 +225,9 @@ def oracle(d, rc):
             where = jl[-1].split("\t")[1]
             vid = where[1:].split(".")[0]
             if where[0] == "P" or verdict_of.get(vid) == "prop":
-                mk("apply-hung-" + vid, [vid] if where[0] != "P" else [], "ApplyRaftRequest does not return (60 s) on a vector the leader accepted")
+                mk("apply-hung-" + vid, [vid] if where[0] != "P" else [], "ApplyRaftRequest does not return (15 s) on a vector the leader accepted")
             else:
-                mk("sandbox-hung-" + vid, [vid], "ApplyRaftRequest does not return (60 s) on a vector fed directly to apply (the leader rejected it)")
+                mk("sandbox-hung-" + vid, [vid], "ApplyRaftRequest does not return (15 s) on a vector fed directly to apply (the leader rejected it)")
         elif jl:
             vid = jl[-1].split("\t")[0]
             tail = ""
